@@ -3,6 +3,7 @@ package sim
 import (
 	"context"
 	"fmt"
+	"reflect"
 
 	"github.com/ipfs/go-cid"
 	"github.com/ipld/go-ipld-prime"
@@ -56,6 +57,7 @@ type c19 struct {
 	started  map[int]bool
 	finished map[int]bool
 	peerOf   map[int]string
+	tracker  any
 }
 
 func newC19() Scenario { return &c19{} }
@@ -69,6 +71,13 @@ func (s *c19) Build(w *World) {
 	ctx, cancel := context.WithCancel(context.Background())
 	w.cleanup = append(w.cleanup, cancel)
 	s.ra = responseassembler.New(ctx, &capHandler{})
+	// "keeps no tracking state": the tracker's internal tables are read (lengths
+	// only, by reflection) whenever a request stops being tracked
+	w.OnObserve = func(site, detail string, obj any) {
+		if site == "peerlinktracker.finishedTracking" {
+			s.tracker = obj
+		}
+	}
 	s.streams = map[int]responseassembler.ResponseStream{}
 	s.scopeOf, s.skipOf, s.countOf = map[int]string{}, map[int]int64{}, map[int]int64{}
 	s.trav, s.missing, s.started, s.finished, s.peerOf = map[int]map[int]bool{}, map[int]bool{}, map[int]bool{}, map[int]bool{}, map[int]string{}
@@ -224,6 +233,71 @@ func (s *c19) exec(w *World, i int) {
 		s.finished[op.req] = true
 		w.Effect("op %d clear r%d", i, op.req)
 	}
+	if (op.kind == "finish" || op.kind == "clear") && s.viol == nil {
+		s.viol = s.checkTrackerState(where)
+	}
+}
+
+// checkTrackerState compares the sizes of the tracker's tables with what the
+// requests still in progress account for (R3: no state is kept for finished requests).
+func (s *c19) checkTrackerState(where string) *Violation {
+	if s.tracker == nil {
+		return nil
+	}
+	v := reflect.ValueOf(s.tracker).Elem()
+	lenOf := func(val reflect.Value, name string) int {
+		f := val.FieldByName(name)
+		if !f.IsValid() {
+			return -1
+		}
+		return f.Len()
+	}
+	inProgress, withKey, withSkip, withCount := 0, 0, 0, 0
+	keys := map[string]bool{}
+	for r := range s.started {
+		if s.finished[r] {
+			continue
+		}
+		inProgress++
+		if s.scopeOf[r] != "" {
+			withKey++
+			keys[s.scopeOf[r]] = true
+		}
+		if s.skipOf[r] > 0 {
+			withSkip++
+		}
+		if s.countOf[r] > 0 {
+			withCount++
+		}
+	}
+	type chk struct {
+		name string
+		got  int
+		want int
+	}
+	checks := []chk{
+		{"altTrackers", lenOf(v, "altTrackers"), len(keys)},
+		{"dedupKeys", lenOf(v, "dedupKeys"), withKey},
+		{"skipFirstBlocks", lenOf(v, "skipFirstBlocks"), withSkip},
+		{"blockSentCount", lenOf(v, "blockSentCount"), withCount},
+	}
+	for _, c := range checks {
+		if c.got >= 0 && c.got != c.want {
+			return &Violation{Property: "C19", Rule: "R3", Signature: "tracking-state-kept:" + c.name, Detail: fmt.Sprintf("tracker table %s has %d entries, the requests in progress account for %d; %s", c.name, c.got, c.want, where)}
+		}
+	}
+	if inProgress == 0 {
+		lt := v.FieldByName("linkTracker")
+		if lt.IsValid() && !lt.IsNil() {
+			e := lt.Elem()
+			for _, name := range []string{"missingBlocks", "linksWithBlocksTraversedByRequest", "traversalsWithBlocksInProgress"} {
+				if n := lenOf(e, name); n > 0 {
+					return &Violation{Property: "C19", Rule: "R3", Signature: "tracking-state-kept:" + name, Detail: fmt.Sprintf("all requests have finished but %s still has %d entries; %s", name, n, where)}
+				}
+			}
+		}
+	}
+	return nil
 }
 
 func (s *c19) Describe(w *World) string      { return s.descr }
